@@ -32,7 +32,9 @@ def parse_tok(spec):
     def tclaim(v):
         if v in ("", "a"): return ("ok", None)
         if v[0] == "i": return ("ok", int(v[1:]))
-        if v[0] == "f": return ("ok", int(v[1:].split(".")[0]))
+        if v[0] == "f":
+            import math
+            return ("ok", math.floor(float(v[1:])))     # whole seconds, rounded down (also before the epoch)
         return ("bad", None)
     def sclaim(v):
         if v in ("", "a"): return ("ok", "")
